@@ -289,6 +289,11 @@ func (r *Runner) builtin(ctx context.Context, pos syntax.Pos, name string, args 
 			*enclosing = 1
 		case 1:
 			if n, err := strconv.Atoi(args[0]); err == nil {
+				if n <= 0 {
+					// Like Bash: an error, and all enclosing loops are left.
+					r.breakEnclosing = 1 << 30
+					return failf(1, "%s: %d: loop count out of range\n", name, n)
+				}
 				*enclosing = n
 				break
 			}
